@@ -771,6 +771,58 @@ theorem prepare_never_rejects (C : Codecs) (L : Lawful C) (m : Markup) (fromEnc 
       obtain ⟨t, ht⟩ := Option.isSome_iff_exists.mp this
       rw [ht]; simp
 
+/-- a lawful toy: utf-8, windows-1252 and ascii in any case; strict decoding accepts 7-bit strings only -/
+def toyLawful : Codecs where
+  codecExists n := lower n == utf8 || lower n == windows1252 || lower n == ascii
+  decodeStrict n b := if (n == utf8 || n == windows1252 || n == ascii) && b.all (· < 128) then some b else none
+  decodeReplace n b := if n == utf8 || n == windows1252 || n == ascii then some (b.map fun c => if c < 128 then c else 0xFFFD) else none
+
+theorem toyLawful_is_lawful : Lawful toyLawful where
+  lookup_ignores_case n := by simp [toyLawful, lower_idem]
+  utf8_exists := by decide
+  cp1252_exists := by decide
+  utf8_replace_total d := by simp [toyLawful]
+  cp1252_replace_total d := by simp [toyLawful, windows1252, utf8]
+
+/-- "No contrary indication", at full strength: if EVERY indication that is present — known definite,
+    override and user encodings, the BOM, the declaration, the chardet guess — names UTF-8 (in any
+    spelling of case), utf-8 is not excluded and the codecs are lawful, then bytes that are valid UTF-8
+    are decoded as UTF-8, `original_encoding == "utf-8"`, no replacement flagged. (`utf8_default` is the
+    case where there is no indication at all, and needs no codec laws beyond utf-8 existing.) -/
+theorem utf8_when_every_indication_is_utf8 (C : Codecs) (L : Lawful C) (a : Args) (b : Bytes) (u : PStr) (hb : b ≠ [])
+    (hall : ∀ x ∈ (a.known ++ a.override) ++ (stripBom b).2.toList ++ a.user ++
+        (findDeclared (stripBom b).1 a.isHtml).toList ++ (C.chardet (stripBom b).1).toList, lower x = utf8)
+    (hx : (exclSet a).contains utf8 = false)
+    (hdec : C.decodeStrict utf8 (stripBom b).1 = some u) :
+    (dammit C a (.bytes b)).text = some u ∧ (dammit C a (.bytes b)).originalEncoding = some utf8 ∧
+    (dammit C a (.bytes b)).containsReplacement = false := by
+  -- the first candidate is a spelling of utf-8
+  have hfirst : ∃ c rest, candidatesOf C a b = [] ++ c :: rest ∧ lower c = utf8 := by
+    unfold candidatesOf candidates sources
+    rw [fallback_is_utf8_then_windows1252]
+    generalize (a.known ++ a.override) ++ (stripBom b).2.toList ++ a.user ++
+        (findDeclared (stripBom b).1 a.isHtml).toList ++ (C.chardet (stripBom b).1).toList = ind at hall
+    cases ind with
+    | nil =>
+      have hl : lower utf8 = utf8 := by decide
+      simp only [List.nil_append, List.filter_cons, hl, hx, Bool.not_false, if_true, dedupLower_cons]
+      exact ⟨utf8, _, rfl, hl⟩
+    | cons x t =>
+      have hlx := hall x List.mem_cons_self
+      simp only [List.cons_append, List.nil_append, List.filter_cons, hlx, hx, Bool.not_false, if_true, dedupLower_cons]
+      exact ⟨x, _, rfl, hlx⟩
+  obtain ⟨c, rest, hc, hlc⟩ := hfirst
+  have hres : findCodec C c = some utf8 := by
+    have := fallback_resolves C L c (Or.inl hlc)
+    rw [hlc] at this; exact this
+  exact dammit_first_clean C a b hb [] rest c utf8 u hc (fun x hx => by cases hx) hres hdec
+
+-- a UTF-8 BOM, `known_definite_encodings=["UTF-8"]` and a `<meta charset=utf-8>` are no contrary indication
+example : True := by
+  have := utf8_when_every_indication_is_utf8 toyLawful toyLawful_is_lawful { known := [ofS "UTF-8"], isHtml := true }
+    ([0xef, 0xbb, 0xbf] ++ ofS "<meta charset=utf-8>") (ofS "<meta charset=utf-8>") (by decide) (by decide +kernel) (by decide) (by decide +kernel)
+  trivial
+
 /-- WHICH ENCODING WINS in the replace pass: when no candidate decodes cleanly, the first candidate other
     than "ascii" that decodes with replacement gives the text and `original_encoding`, flag set. -/
 theorem dammit_replace_winner (C : Codecs) (a : Args) (b : Bytes) (hb : b ≠ [])
@@ -863,19 +915,6 @@ example : True := by
     (by decide) (by decide) (by decide) (by decide) (by decide) (by decide) (by decide) (by decide) (by decide) (Or.inr ⟨_, rfl⟩) (by decide)
   trivial
 
-/-- a lawful toy: utf-8, windows-1252 and ascii in any case; strict decoding accepts 7-bit strings only -/
-def toyLawful : Codecs where
-  codecExists n := lower n == utf8 || lower n == windows1252 || lower n == ascii
-  decodeStrict n b := if (n == utf8 || n == windows1252 || n == ascii) && b.all (· < 128) then some b else none
-  decodeReplace n b := if n == utf8 || n == windows1252 || n == ascii then some (b.map fun c => if c < 128 then c else 0xFFFD) else none
-
-theorem toyLawful_is_lawful : Lawful toyLawful where
-  lookup_ignores_case n := by simp [toyLawful, lower_idem]
-  utf8_exists := by decide
-  cp1252_exists := by decide
-  utf8_replace_total d := by simp [toyLawful]
-  cp1252_replace_total d := by simp [toyLawful, windows1252, utf8]
-
 -- the hypotheses of `dammit_total` / `prepare_never_rejects` / `dammit_replace_winner` are satisfiable, and the
 -- conclusion is not trivial: the text exists although nothing decodes strictly and utf-8 is excluded
 example : (dammit toyLawful { exclude := [ofS "UTF-8"] } (.bytes [200])).text = some [0xFFFD] ∧
@@ -887,5 +926,18 @@ example : True := by
     (by rw [candidatesOf, ← encodings_eq_candidates]; decide) (by rw [candidatesOf, ← encodings_eq_candidates]; decide) (by decide) (by decide)
   have := result_comes_from_a_candidate toyLawful {} [65] (by decide) [65] (by decide)
   trivial
+
+-- remaining hypotheses, instantiated on non-trivial data
+example : True := by
+  have := bom_first_candidate utf16le [ofS "koi8-r"] (some (ofS "big5")) none [ofS "utf-8"] (by decide)
+  have := fallback_resolves toyLawful toyLawful_is_lawful (ofS "Windows-1252") (Or.inr (by decide))
+  have := findCodec_spec toy (ofS "x-sjis") (by decide)
+  have := (candidates_complete [ofS "A", ofS "b"] none [ofS "a"] none none [ofS "b"]).2 [ofS "A", ofS "b"] (ofS "a")
+    [utf8, ofS "windows-1252"] (by decide)
+  have := declared_html_encoding_of_meta toy { isHtml := true, known := [utf8] } (ofS "<meta charset=koi8-r>x") (ofS "koi8-r") rfl
+    (by decide) (by decide)
+  trivial
+-- `candidates_complete` (second part) really needs "no earlier occurrence ignoring case": here `a` is represented by `A`
+example : ofS "a" ∉ encodingsImpl [ofS "A", ofS "b"] none [ofS "a"] none none [ofS "b"] := by decide
 
 end BS.Props.C07
